@@ -366,6 +366,7 @@ type c12Viol struct {
 
 // kinds in priority order (the first present one is the primary kind)
 var c12KindOrder = []string{
+	"sender-stops-handling-events",
 	"running-exceeds-max",
 	"start-with-cancelled-context",
 	"left-still-queued",
@@ -644,9 +645,18 @@ type c12Mode struct {
 	// Self: the stub finishes by itself after a few yields (alternately nil / an error, ctx.Err()
 	// when cancelled); used by the stress part, where nobody tells transfers when to end
 	Self bool
+	// Bench: the host was started with --benchmark (SnapshotSenderConfig.Benchmark): every stub
+	// creates its receiver's progress row first (initSenderProgress, as runICEQUICTransfer does),
+	// runTransfer freezes the row, and the benchmark tick (tickBenchmarks) and the progress
+	// renderer's view run next to the event handlers (c12_bench.go)
+	Bench bool
 }
 
 func (md c12Mode) String() string {
+	if md.Bench {
+		md.Bench = false
+		return md.String() + "+benchmark"
+	}
 	switch {
 	case md.Self:
 		return "self-finishing"
@@ -707,6 +717,23 @@ type c12Inst struct {
 	burstEnv0      []int64
 	burstEnv1      []int64
 	gate           atomic.Pointer[c12Gate]
+
+	// watched delivery (c12_watch.go)
+	wmu          sync.Mutex
+	stuck        string // the delivery that never returned although a canary sender handled the same events
+	stuckDump    string
+	stallInconcl string // a delivery did not return and the canary did not either: stalled machine
+	holdRelease  func() // set while the harness itself holds the progress mutex (c12_directed.go)
+	heldBlocked  bool   // a delivery waited for the mutex the harness held
+	canary       bool
+	noTick       bool
+	realFn       func(ctx context.Context, peer string) error
+	// benchmark mode (c12_bench.go)
+	tickBusy      int32 // atomic
+	benchTicks    int64 // atomic: tickBenchmarks calls that returned
+	tickInjected  int64 // atomic: ticks started at a clock read of the sender
+	tickHeldSeen  int64 // atomic: ... and seen holding the progress mutex before the clock read returned
+	tickUnderLock int64 // atomic: ... while the admission mutex was held (the clock was read inside a critical section)
 }
 
 var c12Base = time.Date(2026, 1, 1, 0, 0, 0, 0, time.UTC)
@@ -730,6 +757,9 @@ func c12NewInstMode(conn *wsclient.Conn, max int, mode c12Mode) *c12Inst {
 			if cp := atomic.LoadInt32(&in.clockPerturb); cp != 0 {
 				in.perturbClock(cp)
 			}
+			if in.mode.Bench && !in.mode.Self && !in.noTick {
+				in.tickAtClockRead()
+			}
 			return c12Base.Add(time.Duration(atomic.LoadInt64(&in.clock)))
 		},
 		MaxReceivers: max,
@@ -739,6 +769,7 @@ func c12NewInstMode(conn *wsclient.Conn, max int, mode c12Mode) *c12Inst {
 		PeerID:       in.id + ".host",
 		SessionID:    "sess-" + in.id,
 		ManifestID:   "manifest-" + in.id,
+		Benchmark:    mode.Bench,
 	})
 	c12Insts.Store(in.id, in)
 	return in
@@ -776,6 +807,9 @@ func (in *c12Inst) wait(pred func() bool, d time.Duration) bool {
 // transferFn is the stub handed to the SnapshotSender: it reports the start
 // (with the state of its context) and returns only when told.
 func (in *c12Inst) transferFn(ctx context.Context, peer string) error {
+	if in.realFn != nil { // the real data phase over fake connections (c12_dumb.go)
+		return in.realFn(ctx, peer)
+	}
 	short := peer
 	if i := strings.IndexByte(peer, '.'); i >= 0 {
 		short = peer[i+1:]
@@ -783,6 +817,9 @@ func (in *c12Inst) transferFn(ctx context.Context, peer string) error {
 	inv := &c12Inv{peer: short, ctx: ctx, startCancelled: ctx.Err() != nil, ret: make(chan error, 1)}
 	// a transfer past connect_ok has registered its connection closer; done before the start is
 	// reported so that the next event of the history finds it in place
+	if in.mode.Bench {
+		in.vs.InitProgress(peer, 1<<20)
+	}
 	nth := atomic.AddInt32(&in.startSeq, 1)
 	if in.mode.Auto || in.mode.Closer == 1 || ((in.mode.Closer == 2 || in.mode.Self) && nth%2 == 1) {
 		inv.closer = true
@@ -937,13 +974,16 @@ func (in *c12Inst) do(e c12Ev) bool {
 	}
 	switch e.K {
 	case c12Join, c12Rejoin:
-		in.vs.HandleEnvelope(in.ctx, in.envelope(protocol.TypePeerJoined,
-			protocol.PeerJoined{Peer: protocol.PeerInfo{PeerID: in.full(e.P), Role: "receiver"}}, "server"))
+		env := in.envelope(protocol.TypePeerJoined,
+			protocol.PeerJoined{Peer: protocol.PeerInfo{PeerID: in.full(e.P), Role: "receiver"}}, "server")
+		in.call("join", func() { in.vs.HandleEnvelope(in.ctx, env) })
 	case c12Accept:
-		in.vs.HandleEnvelope(in.ctx, in.envelope(protocol.TypeManifestAccept,
-			protocol.ManifestAccept{ManifestID: "manifest-" + in.id, Mode: "all"}, in.full(e.P)))
+		env := in.envelope(protocol.TypeManifestAccept,
+			protocol.ManifestAccept{ManifestID: "manifest-" + in.id, Mode: "all"}, in.full(e.P))
+		in.call("accept", func() { in.vs.HandleEnvelope(in.ctx, env) })
 	case c12Leave:
-		in.vs.HandleEnvelope(in.ctx, in.envelope(protocol.TypePeerLeft, protocol.PeerLeft{PeerID: in.full(e.P)}, "server"))
+		env := in.envelope(protocol.TypePeerLeft, protocol.PeerLeft{PeerID: in.full(e.P)}, "server")
+		in.call("leave", func() { in.vs.HandleEnvelope(in.ctx, env) })
 	case c12OK, c12Fail:
 		inv := in.pick(e.P, true)
 		if inv == nil {
@@ -966,7 +1006,7 @@ func (in *c12Inst) do(e c12Ev) bool {
 		}
 	case c12Tick:
 		atomic.AddInt64(&in.clock, int64(6*time.Minute))
-		in.vs.Cleanup()
+		in.call("cleanup-tick", func() { in.vs.Cleanup() })
 	}
 	return true
 }
@@ -976,6 +1016,9 @@ func (in *c12Inst) do(e c12Ev) bool {
 // recording endpoint (marker round trip through the same FIFO connection) and
 // every launched runTransfer goroutine has reported its start to the stub.
 func (in *c12Inst) quiesce() string {
+	if h := in.halted(); h != "" {
+		return h
+	}
 	if !in.wait(func() bool { return in.exits >= in.mustHaveExited() }, c12Watchdog) {
 		return "sender.runTransfer.exit hits stayed below the number of transfers told to return"
 	}
@@ -998,7 +1041,10 @@ func (in *c12Inst) quiesce() string {
 	if in.mode.Self {
 		return "" // transfers come and go on their own: the caller loops until a round sees no new start
 	}
-	snap := in.vs.Snapshot()
+	snap, ok := in.snapshot()
+	if !ok {
+		return in.halted()
+	}
 	in.wait(func() bool {
 		for _, a := range snap.Active {
 			_, short := c12InstOf(a)
@@ -1018,7 +1064,7 @@ func (in *c12Inst) quiesce() string {
 }
 
 func (in *c12Inst) observe(sinceSeq int) c12Obs {
-	snap := in.vs.Snapshot()
+	snap, _ := in.snapshot() // a snapshot that never returns is a stuck sender: the callers ask in.stuckWhat()
 	strip := func(l []string) []string {
 		out := make([]string, 0, len(l))
 		for _, s := range l {
@@ -1122,6 +1168,10 @@ type c12Result struct {
 	TQBad         int
 	Exits         int
 	Trace         []c12Step
+	Stuck         string // the delivery that never returned (watched delivery, c12_watch.go)
+	StuckDump     string
+	Skipped       bool // not run: too many senders had already stopped handling events
+	BenchTicks    [4]int64
 }
 
 func (m *c12Model) String() string {
@@ -1152,6 +1202,9 @@ type c12Worker struct {
 func (w *c12Worker) run(max int, hist []c12Ev, cont, trace bool) c12Result {
 	var r c12Result
 	for attempt := 0; attempt < 3; attempt++ {
+		if c12Abandoned() {
+			return c12Result{Max: max, Hist: hist, Mode: w.mode, Skipped: true}
+		}
 		if atomic.LoadInt64(&c12WatchdogRetries) > c12WatchdogBudget {
 			return c12Result{Max: max, Hist: hist, Mode: w.mode, Inconcl: "exploration abandoned: quiescence watchdog fired too often (stalled machine or a sender that no longer settles)"}
 		}
@@ -1193,11 +1246,23 @@ func (w *c12Worker) runOnce(max int, hist []c12Ev, cont, trace bool) c12Result {
 			break
 		}
 		res.Executed++
+		if what := in.stuckWhat(); what != "" {
+			c12StuckResult(in, &res, i, e, what, &m)
+			break
+		}
 		if why := in.quiesce(); why != "" {
+			if what := in.stuckWhat(); what != "" {
+				c12StuckResult(in, &res, i, e, what, &m)
+				break
+			}
 			res.Inconcl = fmt.Sprintf("max=%d %s after event %d (%s): %s", max, c12HistStr(hist, "."), i+1, e, why)
 			break
 		}
 		o := in.observe(seenInvs)
+		if what := in.stuckWhat(); what != "" {
+			c12StuckResult(in, &res, i, e, what, &m)
+			break
+		}
 		in.mu.Lock()
 		seenInvs = len(in.invs)
 		in.mu.Unlock()
@@ -1250,6 +1315,7 @@ func (w *c12Worker) runOnce(max int, hist []c12Ev, cont, trace bool) c12Result {
 		res.MaxLive = in.maxLiveAtStart
 	}
 	in.mu.Unlock()
+	res.BenchTicks = [4]int64{atomic.LoadInt64(&in.benchTicks), atomic.LoadInt64(&in.tickInjected), atomic.LoadInt64(&in.tickHeldSeen), atomic.LoadInt64(&in.tickUnderLock)}
 	return res
 }
 
@@ -1274,6 +1340,7 @@ type c12Explorer struct {
 	shrinkRuns                                  int64
 	closers, closersCalled, autoRet             int64
 	maxLive                                     [4]int32
+	benchTicks                                  [4]int64
 
 	mu    sync.Mutex
 	fails map[string]*c12Failure
@@ -1291,8 +1358,15 @@ func (x *c12Explorer) withMode(mode c12Mode, fn func(w *c12Worker)) {
 // account books one executed history.
 func (x *c12Explorer) account(r *c12Result, source string) {
 	e := x.e
+	if r.Skipped {
+		atomic.AddInt64(&c12SkippedAfterStuck, 1)
+		return
+	}
 	e.R.Eval()
 	atomic.AddInt64(&x.runs, 1)
+	for k := range r.BenchTicks {
+		atomic.AddInt64(&x.benchTicks[k], r.BenchTicks[k])
+	}
 	atomic.AddInt64(&x.events, int64(r.Executed))
 	atomic.AddInt64(&x.starts, int64(r.Starts))
 	atomic.AddInt64(&x.ts, int64(r.TS))
@@ -1327,6 +1401,17 @@ func (x *c12Explorer) account(r *c12Result, source string) {
 			done = done[:r.Executed]
 		}
 		e.R.Distinct(c12Compact(r.Max, done) + r.Mode.keySuffix())
+	}
+	if r.FailAt > 0 && r.Stuck != "" {
+		// no shrinking (every re-run would sit out the watchdog again): keyed by the kind of the
+		// event that was never handled, the role of its receiver and the configuration
+		pre := r.Hist[:r.FailAt]
+		key := fmt.Sprintf("history:sender-stops-handling-events:%s%s", r.Stuck, r.Mode.keySuffix())
+		e.R.Violate(key,
+			fmt.Sprintf("max-receivers=%d, stub mode %s, history %s: %s", r.Max, r.Mode, c12HistStr(pre, "."), r.Viols[0].Detail),
+			map[string]any{"max": r.Max, "history": c12HistStr(pre, "."), "source": source, "stub_mode": r.Mode.String(), "never_returned": r.Stuck},
+			map[string]any{"violations": r.Viols, "model_before_the_event": r.ModelStr, "goroutines_inside_the_sender": r.StuckDump})
+		return
 	}
 	if r.FailAt > 0 {
 		pre := r.Hist[:r.FailAt]
@@ -1610,10 +1695,10 @@ func runC12(e *Env) {
 	// the sender prints "transfer failed" through termio's stderr writer, which
 	// captures os.Stderr once: point it at /dev/null for that moment
 	if dn, err := os.OpenFile(os.DevNull, os.O_WRONLY, 0); err == nil {
-		orig := os.Stderr
-		os.Stderr = dn
+		orig, origOut := os.Stderr, os.Stdout
+		os.Stderr, os.Stdout = dn, dn // stdout: the benchmark summary line of every sender in benchmark mode
 		termio.Init()
-		os.Stderr = orig
+		os.Stderr, os.Stdout = orig, origOut
 	}
 	// thousands of tiny short-lived senders per second: collect less often, within a memory cap
 	defer debug.SetGCPercent(debug.SetGCPercent(400))
@@ -1833,8 +1918,32 @@ func runC12(e *Env) {
 	if e.Race {
 		nStreams /= 8 // the stream is CPU-bound and about ten times slower under the race detector
 	}
-	sst := x.stress(rng, nStreams, nEnv)
+	sst := x.stress(rng, nStreams, nEnv, false)
 	vk.Logf("stress: %d streams, %d envelopes, %d transfer starts (%.1fs)", sst.Streams, sst.Envelopes, sst.Starts, time.Since(t0).Seconds())
+
+	// 3e. benchmark / progress-table configuration (c12_bench.go): sequential histories with a
+	// benchmark tick + renderer frame started at every clock read of the sender, and stress
+	// streams with a free-running tick. Own generator: the case lists of the parts above do not
+	// depend on it.
+	brng := vk.NewRng(e.Seed ^ vk.HashStr("c12bench"+e.Tier))
+	nBench, benchLen, nBenchStreams := 1500, 9, nStreams/4
+	if e.Thorough() {
+		nBench, benchLen = 15000, 12
+	}
+	if e.Race {
+		nBench /= 4
+	}
+	var benchProbes []string
+	for _, p := range probes {
+		benchProbes = append(benchProbes, p.Hist)
+	}
+	benchProbes = append(benchProbes, "Ja.Aa.Jb.Ab.La.Kb", "Ja.Aa.Jb.Ab.Jc.Ac.Lb.La.Kc", "Ja.Aa.La.Ja.Aa.Fa.T", "Ja.Aa.Jb.Ab.Fa.Lb.T.T")
+	bst := x.benchHistories(brng, nBench, benchLen, benchProbes)
+	bsst := x.stress(brng, nBenchStreams, nEnv, true)
+	// 3f. the real raw multi-connection data phase over fake connections (c12_dumb.go)
+	dst := x.realDumb(vk.NewRng(e.Seed^vk.HashStr("c12dumb"+e.Tier)), e.Pick(2, 10))
+	vk.Logf("real-dumb: %d cases, %d bytes through the real data pump (%.1fs)", dst.Cases, dst.Bytes, time.Since(t0).Seconds())
+	vk.Logf("benchmark mode: %d histories (%v), ticks %v; %d stress streams, %d ticks (%.1fs)", bst.Histories, bst.ByMode, x.benchTicks, bsst.Streams, bsst.BenchTicks, time.Since(t0).Seconds())
 
 	// 4. refuting prefixes: shrink, key by the minimal shape, report
 	var fl []*c12Failure
@@ -1947,7 +2056,7 @@ func runC12(e *Env) {
 		bs = append(bs, fmt.Sprintf("max-receivers=%d: every history of length %d (and so every shorter one)", b.Max, b.Len))
 	}
 	e.R.SetExtra("exhaustive_bound", strings.Join(bs, "; ")+"; over events J A L K F S T, receivers {a,b,c} up to renaming, membership-consistent; a history is cut at its first refuting prefix and that prefix is not extended")
-	e.R.Rule = "histories over receivers {a,b,c} of J(oin) A(ccept, repeatable) L(eave) K(transfer returns nil) F(transfer returns error) S/s(transfer whose context was cancelled returns late with error/nil) T(clock +6 min and one idle-cleanup tick, TTL 10 min), membership-consistent (join only for non-members, accept/leave only for members, returns only for running transfers), for max-receivers 1..3, each on a fresh real SnapshotSender driven through handleEnvelope/cleanup with a stub transfer function and a real wsclient.Conn to a recording endpoint; after EVERY event: quiescence by sender.runTransfer.exit hit count + marker round trip + stub start count, then comparison with the reference model. Exhaustive part (" + strings.Join(bs, "; ") + "): every such history up to receiver renaming; a history is cut at its first refuting prefix, which is not extended. Random part: weighted random walks (classes free / avoid-known / duplicate-join, the last adds R = join of a receiver that is already a member). A history counts as distinct non-trivial when it reached quiescence after every executed event and started >= 1 transfer; distinct by (max, event string up to the cut, stub mode). Stub modes: told (default; no connection closer, returns when told), closer / closer-mixed (registers a closer through setTransferCloser before reporting its start), real-like (closer + returns by itself once cancelled); the enumeration is repeated one event shorter in modes closer and real-like. Concurrent part: histories over up to five receivers whose steps are single events or bursts (<= 1 envelope, <= 1 cleanup tick, transfer returns; one goroutine each, released together), random and a directed full-house family; a burst counts when it reached quiescence, distinct by (max, burst shape = event letters with the receiver's role before the burst, receivers waiting 0/1/2+, stub mode). Stress part: streams of back-to-back envelopes against self-finishing transfers, distinct by (max, stream seed)."
+	e.R.Rule = "histories over receivers {a,b,c} of J(oin) A(ccept, repeatable) L(eave) K(transfer returns nil) F(transfer returns error) S/s(transfer whose context was cancelled returns late with error/nil) T(clock +6 min and one idle-cleanup tick, TTL 10 min), membership-consistent (join only for non-members, accept/leave only for members, returns only for running transfers), for max-receivers 1..3, each on a fresh real SnapshotSender driven through handleEnvelope/cleanup with a stub transfer function and a real wsclient.Conn to a recording endpoint; after EVERY event: quiescence by sender.runTransfer.exit hit count + marker round trip + stub start count, then comparison with the reference model. Exhaustive part (" + strings.Join(bs, "; ") + "): every such history up to receiver renaming; a history is cut at its first refuting prefix, which is not extended. Random part: weighted random walks (classes free / avoid-known / duplicate-join, the last adds R = join of a receiver that is already a member). A history counts as distinct non-trivial when it reached quiescence after every executed event and started >= 1 transfer; distinct by (max, event string up to the cut, stub mode). Stub modes: told (default; no connection closer, returns when told), closer / closer-mixed (registers a closer through setTransferCloser before reporting its start), real-like (closer + returns by itself once cancelled); the enumeration is repeated one event shorter in modes closer and real-like. Concurrent part: histories over up to five receivers whose steps are single events or bursts (<= 1 envelope, <= 1 cleanup tick, transfer returns; one goroutine each, released together), random and a directed full-house family; a burst counts when it reached quiescence, distinct by (max, burst shape = event letters with the receiver's role before the burst, receivers waiting 0/1/2+, stub mode). Stress part: streams of back-to-back envelopes against self-finishing transfers, distinct by (max, stream seed). Benchmark configuration: the same sequential histories (random walks + directed probes) and stress streams against a sender built with benchmark = true whose stubs create their receiver's progress row; a benchmark tick + renderer frame is started at the sender's clock reads (sequential) or runs freely (stress); distinct as above with +benchmark in the stub mode / stream key. Real-dumb part: max-receivers 1-2 served receivers + 1-2 waiting, the real sendDumbDataMulti over 2-4 gated fake connections per receiver, one part failing (open-stream / header-write / first / later data block) while its siblings are mid-transfer; distinct by (max, connections, failure kind, waiting, failing receiver, failing part, blocks per part); a case counts when every receiver's transfer function has returned and the final state was read. Every call into the sender is watched (c12_watch.go)."
 	e.R.SetExtra("histories_run", atomic.LoadInt64(&x.runs))
 	e.R.SetExtra("events_executed_and_checked", atomic.LoadInt64(&x.events))
 	e.R.SetExtra("stub_transfer_starts_observed", atomic.LoadInt64(&x.starts))
@@ -1990,6 +2099,18 @@ func runC12(e *Env) {
 	e.R.SetExtra("stress_cleanup_ticks", sst.Ticks)
 	e.R.SetExtra("stress_max_live_transfers_counted_at_a_stub_start_by_max_receivers", map[string]int32{"1": sst.MaxLive[1], "2": sst.MaxLive[2], "3": sst.MaxLive[3]})
 	e.R.SetExtra("stress_streams_refuted_by_key", sst.FailCount)
+	e.R.SetExtra("benchmark_mode_histories_by_stub_mode", bst.ByMode)
+	e.R.SetExtra("benchmark_mode_ticks", map[string]int64{"tickBenchmarks_calls_returned": x.benchTicks[0], "started_at_a_clock_read_of_the_sender": x.benchTicks[1],
+		"seen_holding_the_progress_mutex_before_the_clock_read_returned": x.benchTicks[2], "started_while_the_admission_mutex_was_held": x.benchTicks[3]})
+	e.R.SetExtra("benchmark_mode_stress", map[string]int64{"streams": bsst.Streams, "envelopes": bsst.Envelopes, "transfer_starts": bsst.Starts, "benchmark_ticks": bsst.BenchTicks, "leaves_that_found_a_running_transfer": bsst.LeavesOfRun})
+	e.R.SetExtra("benchmark_mode_stress_streams_refuted_by_key", bsst.FailCount)
+	e.R.SetExtra("real_dumb_cases_by_class", dst.ByClass)
+	e.R.SetExtra("real_dumb", map[string]int64{"cases": dst.Cases, "bytes_written_by_the_real_data_pump_on_fake_connections": dst.Bytes, "cases_in_which_the_next_queued_receiver_was_started_after_a_part_failure": dst.NextStarted})
+	e.R.SetExtra("watched_calls_into_the_sender", atomic.LoadInt64(&c12WatchedCalls))
+	e.R.SetExtra("watched_calls_canary_runs", atomic.LoadInt64(&c12CanaryRuns))
+	e.R.SetExtra("senders_that_stopped_handling_events", atomic.LoadInt64(&c12StuckCount))
+	e.R.SetExtra("cases_not_run_after_that_many_senders_stopped_handling_events", atomic.LoadInt64(&c12SkippedAfterStuck))
+	e.R.SetExtra("deliveries_that_waited_for_the_progress_mutex_held_by_the_harness", atomic.LoadInt64(&c12HeldBlocked))
 	e.R.SetExtra("watchdog_hits_retried", atomic.LoadInt64(&c12WatchdogRetries))
 	e.R.SetExtra("wall_s_harness", time.Since(t0).Seconds())
 
@@ -2021,6 +2142,15 @@ func runC12(e *Env) {
 	for m := 1; m <= 3; m++ {
 		e.R.Require(sst.MaxLive[m] >= int32(m), fmt.Sprintf("stress part, max-receivers=%d: never saw %d transfers running at once", m, m))
 	}
+	e.R.Require(atomic.LoadInt64(&c12SkippedAfterStuck) == 0, fmt.Sprintf("%d cases were not run because %d senders had stopped handling events", atomic.LoadInt64(&c12SkippedAfterStuck), atomic.LoadInt64(&c12StuckCount)))
+	e.R.Require(e.R.Counter("directed_stalled_return_not_constructible") == 0, "the parked-bookkeeping scenario could not be built: an event handler waited for the progress mutex")
+	e.R.Require(e.R.Counter("histories:benchmark-random") >= nBench/2 && e.R.Counter("histories:benchmark-directed") > 0, "benchmark mode: too few histories reached a verdict")
+	e.R.Require(x.benchTicks[3] >= int64(nBench) && x.benchTicks[2] > 0, fmt.Sprintf("benchmark mode: only %d benchmark ticks were started while an event handler held the admission mutex (%d seen holding the progress mutex)", x.benchTicks[3], x.benchTicks[2]))
+	e.R.Require(dst.Cases >= 30 && dst.NextStarted >= 20 && dst.Bytes > 0, fmt.Sprintf("real-dumb part: %d cases reached a verdict, %d with a part failure followed by the start of the next receiver", dst.Cases, dst.NextStarted))
+	for _, md := range []string{"told+benchmark", "closer+benchmark", "real-like+benchmark", "closer-mixed+benchmark"} {
+		e.R.Require(bst.ByMode[md] > 0, "benchmark mode did not run stub mode "+md)
+	}
+	e.R.Require(bsst.Streams >= int64(nBenchStreams*3/4) && bsst.BenchTicks >= bsst.Streams*100 && bsst.LeavesOfRun > 0, fmt.Sprintf("benchmark-mode stress: %d of %d streams reached a verdict, %d benchmark ticks", bsst.Streams, nBenchStreams, bsst.BenchTicks))
 	for _, md := range []string{"told", "closer", "real-like"} {
 		e.R.Require(cst.ByFamily["full-house/stub="+md] > 0 && cst.ByFamily["random/stub="+md] > 0, "concurrent part did not run stub mode "+md)
 	}
